@@ -251,6 +251,20 @@ func first(b []byte) byte {
 }
 
 // Wrap builds the protected response for (data, sw); it advances the counter by one.
+// WrapPadded is Wrap for a data field whose padding the caller has already applied (a whole
+// number of cipher blocks), so that monitors can present validly MACed responses whose
+// plaintext is NOT well-formed ISO 9797-1 method-2 padding.
+func (s *SM) WrapPadded(padded []byte, sw uint16) []byte {
+	IncSSC(s.SSC)
+	var body []byte
+	ct := symref.CBC(symref.Block(s.Suite, s.KEnc), s.iv(), padded, true)
+	body = append(body, TLV(0x87, append([]byte{0x01}, ct...))...)
+	body = append(body, 0x99, 0x02, byte(sw>>8), byte(sw))
+	m := append(append([]byte{}, s.SSC...), body...)
+	body = append(body, TLV(0x8E, s.mac(m))...)
+	return append(body, byte(sw>>8), byte(sw))
+}
+
 func (s *SM) Wrap(data []byte, sw uint16) []byte {
 	IncSSC(s.SSC)
 	var body []byte
